@@ -16,10 +16,17 @@ var nowTime = time.Now
 // This installs a hook into the login process so that the
 // LastAction is recorded immediately.
 func Setup(ab *authboss.Authboss) error {
-	ab.Events.After(authboss.EventAuth, func(w http.ResponseWriter, r *http.Request, handled bool) (bool, error) {
+	stamp := func(w http.ResponseWriter, r *http.Request, handled bool) (bool, error) {
 		refreshExpiry(w)
 		return false, nil
-	})
+	}
+
+	// Every way of becoming logged in has to start the idle clock, not just
+	// the password login, otherwise the first request after an OAuth2 login or
+	// a registration is served as authenticated however late it arrives.
+	ab.Events.After(authboss.EventAuth, stamp)
+	ab.Events.After(authboss.EventOAuth2, stamp)
+	ab.Events.After(authboss.EventRegister, stamp)
 
 	return nil
 }
